@@ -186,6 +186,8 @@ CHECKS["C10"] = {
     "level_note": "Responses are always wire-reachable (marshal -> bytes -> unmarshal); 'permanently block' is decided as bounded virtual time under synctest; the transport is the in-memory pipe model.",
     "parts": [
         {"part": "messenger", "pkg": PBP, "test": "TestVerif_C10_Messenger", "quick": 4000, "thorough": 60000},
+        {"part": "sender-bytes", "pkg": "./internal/net/", "test": "TestVerif_C10_SenderBytes", "quick": 1000, "thorough": 15000},
+        {"part": "lookup-flood", "pkg": "./", "test": "TestVerif_C10_LookupFlood", "quick": 1000, "thorough": 15000},
     ],
 }
 
